@@ -267,8 +267,11 @@ func c13ErrFold(c *Ctx, fn *ssa.Function, loopCall, errSrc *ssa.Call, rule, name
 			}
 		}
 	}
-	returned := false
+	returned := fn.Signature.Results().Len() == 0
 	for _, r := range Returns(fn) {
+		if len(r.Results) == 0 {
+			continue
+		}
 		last := r.Results[len(r.Results)-1]
 		if isPhi && Strip(last) == ssa.Value(acc) {
 			returned = true
